@@ -52,6 +52,8 @@ operand_st = st.one_of(
     st.fixed_dictionaries({"t": st.just("Q"), "vals": vals_st, "unit": st.sampled_from(UNITS), "scalar": st.booleans()}),
     # one of the target's own components (v *= v.x): shares data with what is being updated
     st.fixed_dictionaries({"t": st.just("comp"), "c": st.integers(0, 2)}),
+    # ... or a Vector wrapping the target's own components in another order: Vector(v.y, v.x)
+    st.fixed_dictionaries({"t": st.just("perm"), "p": st.permutations([0, 1, 2])}),
 )
 op_st = st.one_of(
     st.fixed_dictionaries({"op": st.just("iop"), "x": st.integers(0, 30), "o": st.sampled_from(["+", "-", "*", "/"]),
@@ -255,6 +257,14 @@ def _operand(w, y, n, target):
         obj = _arrays_of(target.objs[0])[c]
         mc = target.comps[c]
         return obj, [(w.raw(mc).copy(), mc.unit, mc.dtype)] * ncomp, "comp", None
+    if t == "perm":
+        if target.kind != "V" or ncomp < 2:
+            return None
+        order = [j for j in y["p"] if j < ncomp]
+        arrs = _arrays_of(target.objs[0])
+        obj = osyris.Vector(*[arrs[j] for j in order])
+        comps = [(w.raw(target.comps[j]).copy(), target.comps[j].unit, target.comps[j].dtype) for j in order]
+        return obj, comps, "perm", None
     if t == "new":
         spec = dict(y["spec"])
         if spec["kind"] == "V":
@@ -653,4 +663,4 @@ def history(case, r):
 def subs(ctx):
     return [Sub("history", history, strategy=case_st, quick=600, thorough=4000,
                 required={"shared_update": 0.25, "slice": 0.1, "ccopy_copy.deepcopy": 0.05, "multi_container_update": 0.05,
-                          "y_comp": 0.02})]
+                          "y_comp": 0.02, "y_perm": 0.01})]
